@@ -128,6 +128,14 @@ func c10CheckDec(c c10DecCase) h.Result {
 		} else if got := c10Marshal(recv); !bytes.Equal(got, want) {
 			r.Fail("EdwardsPoint.SetCompressedY:wrong-point", "in=%x re-encoded=%x want=%x", in, got, want)
 		}
+		// the decoded value is a consistent extended point (T = XY/Z): it
+		// must behave as the reference point in arithmetic that reads T
+		r.Eval(1)
+		// (P + B, B the base point: P + P would be blind to the sign of T)
+		sum := curve.NewEdwardsPoint().Add(recv, c10Marker())
+		if got, w2 := c10Marshal(sum), ref.Add(di.P, ref.Base).Encode(); !bytes.Equal(got, w2) {
+			r.Fail("EdwardsPoint.SetCompressedY:inconsistent-extended-coordinates", "in=%x P+B=%x want=%x", in, got, w2)
+		}
 		// the compressed form of the decoded point is the canonical encoding
 		var cp2 curve.CompressedEdwardsY
 		cp2.SetEdwardsPoint(recv)
@@ -510,6 +518,10 @@ func c10CheckMont(c c10MontCase) h.Result {
 	got := c10Marshal(recv)
 	if !bytes.Equal(got, want.Encode()) {
 		r.Fail("EdwardsPoint.SetMontgomery:wrong-point", "u=%x sign=%d got=%x want=%x", in, c.Sign, got, want.Encode())
+	}
+	sum := curve.NewEdwardsPoint().Add(recv, c10Marker())
+	if g2, w2 := c10Marshal(sum), ref.Add(want, ref.Base).Encode(); !bytes.Equal(g2, w2) {
+		r.Fail("EdwardsPoint.SetMontgomery:inconsistent-extended-coordinates", "u=%x sign=%d P+B=%x want=%x", in, c.Sign, g2, w2)
 	}
 	// requested sign (x = 0 has no sign)
 	if want.X.Sign() != 0 && got[31]>>7 != c.Sign {
